@@ -2169,6 +2169,10 @@ class Frame:
                 if any(ast.unparse(d) == 'classmethod' for d in got[1].decorator_list):
                     fr_.self_obj = base
                 return fr_
+        if n.attr == '__code__' and isinstance(base, (FuncRef, BoundOpaque)):
+            return code_object(I, base, n)
+        if n.attr == '__name__' and isinstance(base, FuncRef) and hasattr(base.fn, 'name'):
+            return base.fn.name
         raise Unsupported('attribute %s of %r' % (n.attr, base), n, self.module.relpath)
 
     def obj_attr(self, obj, attr, node=None):
@@ -3551,6 +3555,60 @@ def _isclass(I, fr, args, kwargs, n):
     return isinstance(args[0], ClassInfo)
 
 
+# ---- reflection on callables (inspect.signature, __code__): the package routes keyword arguments by looking at the
+#      signature of what it is about to call; that code is interpreted, the reflection it relies on is modelled here
+PARAM_KINDS = {k_: Obj('inspect.Parameter.' + k_) for k_ in
+               ('POSITIONAL_ONLY', 'POSITIONAL_OR_KEYWORD', 'VAR_POSITIONAL', 'KEYWORD_ONLY', 'VAR_KEYWORD')}
+
+
+def _signature_of(I, fn, n=None):
+    """[(name, kind)] as inspect.signature lists them (a bound method without its first parameter, a class through its
+    __init__ without self) and the same for the code object ([positional names incl. self], all variable names)"""
+    if isinstance(fn, ClassInfo):
+        got = I.repo.find_method(fn, '__init__', missing_ok=True)
+        if not got:
+            return [], ['self'], ['self']
+        a, bound = got[1].args, True
+    elif isinstance(fn, FuncRef):
+        a = fn.fn.args
+        bound = fn.self_obj is not None and fn.closure is None
+    elif isinstance(fn, BoundOpaque):
+        names = list(fn.obj.opaque_params.get(fn.name, ()))
+        return [(x, 'POSITIONAL_OR_KEYWORD') for x in names], ['self'] + names, ['self'] + names
+    else:
+        raise Unsupported('signature of %r' % (fn,), n)
+    pos = [x.arg for x in a.posonlyargs] + [x.arg for x in a.args]
+    sig = [(x.arg, 'POSITIONAL_ONLY') for x in a.posonlyargs] + [(x.arg, 'POSITIONAL_OR_KEYWORD') for x in a.args]
+    if bound and sig:
+        sig = sig[1:]
+    if a.vararg is not None:
+        sig.append((a.vararg.arg, 'VAR_POSITIONAL'))
+    sig += [(x.arg, 'KEYWORD_ONLY') for x in a.kwonlyargs]
+    if a.kwarg is not None:
+        sig.append((a.kwarg.arg, 'VAR_KEYWORD'))
+    varnames = pos + [x.arg for x in a.kwonlyargs] + ([a.vararg.arg] if a.vararg else []) + \
+        ([a.kwarg.arg] if a.kwarg else [])
+    return sig, pos, varnames
+
+
+def _inspect_signature(I, fr, args, kwargs, n):
+    sig, _pos, _all = _signature_of(I, _arg(args, kwargs, 0, 'obj'), n)
+    ps = DictV()
+    for name, kind in sig:
+        po = Obj('parameter:' + name, attrs=dict({'name': name, 'kind': PARAM_KINDS[kind]}, **PARAM_KINDS), closed=True)
+        ps.d[name] = po
+    return Obj('signature', attrs={'parameters': ps}, closed=True)
+
+
+def code_object(I, fn, n=None):
+    _sig, pos, varnames = _signature_of(I, fn, n)
+    names = ListV(list(varnames))
+    names.frozen = True
+    kwonly = len(fn.fn.args.kwonlyargs) if isinstance(fn, FuncRef) else 0
+    return Obj('code', attrs={'co_argcount': C(len(pos)), 'co_varnames': names, 'co_kwonlyargcount': C(kwonly)},
+               closed=True)
+
+
 def _np_anyall(which):
     def h(I, fr, args, kwargs, n):
         v = _arg(args, kwargs, 0, 'a')
@@ -4418,8 +4476,7 @@ NATIVE = {
     'pmutt.constants.P0': _c_P0,
     'pmutt.constants.T0': _c_T0,
     'pmutt._is_iterable': _is_iterable,
-    'pmutt._pass_expected_arguments': _pass_expected,
-    'pmutt._force_pass_arguments': _force_pass,
+    'inspect.signature': _inspect_signature,
     'copy.copy': _copy,
     'copy.deepcopy': _copy,
     'numpy.atleast_1d': _np_atleast_1d,
@@ -4449,6 +4506,7 @@ NATIVE = {
 }
 
 GLOBAL_ATTRS = {
+    'inspect.Parameter': lambda I: Obj('inspect.Parameter', attrs=dict(PARAM_KINDS), closed=True),
     'numbers.Number': lambda I: Builtin('Number'),
     'numbers.Real': lambda I: Builtin('Number'),
     'numpy.pi': lambda I: I.D.sym('pi'),
